@@ -6,6 +6,7 @@ import CogentModel.Proofs.ViewParent
 import CogentModel.Proofs.ViewChain
 import CogentModel.Proofs.SeqWrap
 import CogentModel.Proofs.C01GenEq
+import CogentModel.Proofs.ViewIndexFull
 /-! # C01 — property theorems (views obey the slice algebra)
 
 `Inv` is the representation invariant of slice records, `elems v` the list of
@@ -406,6 +407,71 @@ example : SeqWrap.runOps (SeqWrap.ofString "ACGGTAAC".toList true) [.slice (some
     = .error .indexError ∧
     SeqWrap.specRun dnaComp true "ACGGTAAC".toList [.slice (some 1) none (some 2), .rc, .index 4] = none := by decide
 
+/-! ## Integer indexing at full strength (added with the `index` stream of the harness) -/
+
+/-- **`view[i]` for EVERY reachable view and EVERY python int `i`.**  If the displayed positions `elems v` have an
+`i`-th element `x` under python indexing (negative `i` counts from the end) then `v[i]` succeeds with a view `w` that
+satisfies the invariant, displays exactly `[x]`, has `len 1`, keeps `offset` / `seq_len`, has step `±1` with the
+orientation of `v`, and whose `parent_start` / `parent_stop` name exactly that one parent position
+(`[offset + x, offset + x + 1)`, `0 ≤ x < seq_len`).  Otherwise -- exactly when the plain list raises --
+`v[i]` raises `IndexError` and nothing else.  (Strengthens `getitem_int_spec`: the error kind, the success
+direction, and the parent coordinates of the 1-long result.) -/
+theorem getitem_int_full (v : View) (h : Inv v) (i : Int) :
+    (∀ x, PySlice.index (elems v) i = some x →
+      ∃ w, getitemInt v i = .ok w ∧ Inv w ∧ elems w = [x] ∧ len w = 1 ∧
+        w.offset = v.offset ∧ w.seqLen = v.seqLen ∧ w.step = (if v.step < 0 then -1 else 1) ∧
+        parentStart w = .ok (v.offset + x) ∧ parentStop w = .ok (v.offset + x + 1) ∧
+        0 ≤ x ∧ x < v.seqLen) ∧
+    (PySlice.index (elems v) i = none → getitemInt v i = .error .indexError) :=
+  getitemInt_full v h i
+
+-- `seq[:7:2][-1]` on a 10-mer: span 7 is not a multiple of the stride, the recorded stop (7) is not the true stop (8)
+example : elems { start := 0, stop := 7, step := 2, offset := 3, seqLen := 10 } = [0, 2, 4, 6] ∧
+    PySlice.index [0, 2, 4, 6] (-1) = some (6 : Int) ∧
+    getitemInt { start := 0, stop := 7, step := 2, offset := 3, seqLen := 10 } (-1)
+      = .ok { start := 6, stop := 7, step := 1, offset := 3, seqLen := 10 } ∧
+    parentStart { start := 6, stop := 7, step := 1, offset := 3, seqLen := 10 } = .ok (3 + 6) ∧
+    parentStop { start := 6, stop := 7, step := 1, offset := 3, seqLen := 10 } = .ok (3 + 6 + 1) := by decide
+-- strided reversed view, negative index
+example : elems { start := -3, stop := -10, step := -2, offset := 5, seqLen := 10 } = [7, 5, 3, 1] ∧
+    getitemInt { start := -3, stop := -10, step := -2, offset := 5, seqLen := 10 } (-2)
+      = .ok { start := -7, stop := -8, step := -1, offset := 5, seqLen := 10 } ∧
+    elems { start := -7, stop := -8, step := -1, offset := 5, seqLen := 10 } = [3] ∧
+    parentStart { start := -7, stop := -8, step := -1, offset := 5, seqLen := 10 } = .ok (5 + 3) ∧
+    parentStop { start := -7, stop := -8, step := -1, offset := 5, seqLen := 10 } = .ok (5 + 3 + 1) := by decide
+-- out of range on both sides, and on an empty view
+example : getitemInt { start := 0, stop := 7, step := 2, offset := 0, seqLen := 10 } 4 = .error .indexError ∧
+    getitemInt { start := 0, stop := 7, step := 2, offset := 0, seqLen := 10 } (-5) = .error .indexError ∧
+    getitemInt { start := 0, stop := 0, step := 1, offset := 0, seqLen := 10 } 0 = .error .indexError ∧
+    PySlice.index [0, 2, 4, (6 : Int)] 4 = none ∧ PySlice.index [0, 2, 4, (6 : Int)] (-5) = none := by decide
+
+/-- **`seq[i]` at string level, full strength**: for every well-formed `Sequence` wrapper (any parent string, any
+complement table) and every python int `i`: if `str(seq)` has an `i`-th character `ch`, `seq[i]` succeeds with a
+well-formed 1-long sequence over the same parent whose string is `[ch]`, which reports the parent segment
+`[offset + x, offset + x + 1)` for a valid parent position `x`, keeps the orientation (strand) of `seq`, and `ch`
+is the parent's character at `x`, complemented exactly when `seq` is a reversed nucleic acid; otherwise `seq[i]`
+raises `IndexError` and nothing else. -/
+theorem str_getitem_int_full (comp : Char → Char) (s : SeqWrap.Seq) (i : Int) (h : SeqWrap.WF s) :
+    (∀ ch, PySlice.index (SeqWrap.str comp s) i = some ch →
+      ∃ s' x, SeqWrap.getitemI s i = .ok s' ∧ SeqWrap.WF s' ∧ SeqWrap.str comp s' = [ch] ∧ SeqWrap.length s' = 1 ∧
+        s'.parent = s.parent ∧ s'.nucleic = s.nucleic ∧ (s'.v.step < 0 ↔ s.v.step < 0) ∧
+        parentStart s'.v = .ok (s.v.offset + x) ∧ parentStop s'.v = .ok (s.v.offset + x + 1) ∧
+        0 ≤ x ∧ x < s.parent.length ∧
+        ch = (if s.v.step < 0 ∧ s.nucleic then comp (s.parent[x.toNat]!) else s.parent[x.toNat]!)) ∧
+    (PySlice.index (SeqWrap.str comp s) i = none → SeqWrap.getitemI s i = .error .indexError) :=
+  SeqWrap.str_getitemI_full comp s i h
+
+-- "ACGGTCATTG"[:7:2] = "AGTA"; [-1] is the `A` at parent position 6
+example : ((SeqWrap.getitem (SeqWrap.ofString "ACGGTCATTG".toList true) none (some 7) (some 2)).toOption.bind
+      (fun s => (SeqWrap.getitemI s (-1)).toOption)).map
+      (fun r => (SeqWrap.str dnaComp r, parentStart r.v, parentStop r.v))
+    = some ("A".toList, .ok 6, .ok 7) := by decide
+-- rc then stride 3: "CAATGACCGT"[::3] = "CTCT"; [-2] is the complement of parent position 3 (`G` -> `C`)
+example : ((SeqWrap.getitem (SeqWrap.rc (SeqWrap.ofString "ACGGTCATTG".toList true)) none none (some 3)).toOption.bind
+      (fun s => (SeqWrap.getitemI s (-2)).toOption)).map
+      (fun r => (SeqWrap.str dnaComp r, parentStart r.v, parentStop r.v, decide (r.v.step < 0)))
+    = some ("C".toList, .ok 3, .ok 4, true) := by decide
+
 /-! ## Added by the audit: the `[i]!` reads are never out of range, and string-level parent coordinates -/
 
 /-- every displayed position is a valid index into the parent, so the totalised reads `parent[i]!`
@@ -594,6 +660,20 @@ theorem gen_old_parent_coords_exact (v : View) (h : Inv v) :
   rw [gen_old_parentStartStop.1, gen_old_parentStartStop.2]
   exact parent_coords_exact v h
 
+/-- `getitem_int_full` for the translated `__getitem__` / `_get_index` / `parent_start` / `parent_stop` / `__len__` -/
+theorem gen_old_getitem_int_full (v : View) (h : Inv v) (i : Int) :
+    (∀ x, PySlice.index (elems v) i = some x →
+      ∃ w, GenOld.getitemInt v i = .ok w ∧ Inv w ∧ elems w = [x] ∧ GenOld.len w = 1 ∧
+        w.offset = v.offset ∧ w.seqLen = v.seqLen ∧ w.step = (if v.step < 0 then -1 else 1) ∧
+        GenOld.parentStart w = .ok (v.offset + x) ∧ GenOld.parentStop w = .ok (v.offset + x + 1) ∧
+        0 ≤ x ∧ x < v.seqLen) ∧
+    (PySlice.index (elems v) i = none → GenOld.getitemInt v i = .error .indexError) := by
+  rw [gen_old_getitemInt, gen_old_len, gen_old_parentStartStop.1, gen_old_parentStartStop.2]
+  exact getitem_int_full v h i
+
+example : GenOld.getitemInt { start := 0, stop := 7, step := 2, offset := 3, seqLen := 10 } (-1)
+    = .ok { start := 6, stop := 7, step := 1, offset := 3, seqLen := 10 } := by decide
+
 /-- one step of a chain, through the translated `__getitem__` -/
 def genStepOld (v : View) : Op → Except Err View
   | .slice a b c => GenOld.getitemSlice v a b c
@@ -724,6 +804,20 @@ theorem gen_new_parent_coords_exact (v : View) (h : Inv v) :
   rw [gen_new_parentStartStop.1, gen_new_parentStartStop.2]
   exact parent_coords_exact v h
 
+/-- `getitem_int_full` for the translated `__getitem__` / `_get_index` / `parent_start` / `parent_stop` / `__len__` -/
+theorem gen_new_getitem_int_full (v : View) (h : Inv v) (i : Int) :
+    (∀ x, PySlice.index (elems v) i = some x →
+      ∃ w, GenNew.getitemInt v i = .ok w ∧ Inv w ∧ elems w = [x] ∧ GenNew.len w = 1 ∧
+        w.offset = v.offset ∧ w.seqLen = v.seqLen ∧ w.step = (if v.step < 0 then -1 else 1) ∧
+        GenNew.parentStart w = .ok (v.offset + x) ∧ GenNew.parentStop w = .ok (v.offset + x + 1) ∧
+        0 ≤ x ∧ x < v.seqLen) ∧
+    (PySlice.index (elems v) i = none → GenNew.getitemInt v i = .error .indexError) := by
+  rw [gen_new_getitemInt, gen_new_len, gen_new_parentStartStop.1, gen_new_parentStartStop.2]
+  exact getitem_int_full v h i
+
+example : GenNew.getitemInt { start := 0, stop := 7, step := 2, offset := 3, seqLen := 10 } (-1)
+    = .ok { start := 6, stop := 7, step := 1, offset := 3, seqLen := 10 } := by decide
+
 /-- one step of a chain, through the translated `__getitem__` -/
 def genStepNew (v : View) : Op → Except Err View
   | .slice a b c => GenNew.getitemSlice v a b c
@@ -841,6 +935,20 @@ theorem gen_data_parent_coords_exact (v : View) (h : Inv v) :
       elems v = (PySlice.sliceIdx (pe - ps).toNat none none v.step).map (· + ps) := by
   rw [gen_data_parentStartStop.1, gen_data_parentStartStop.2]
   exact parent_coords_exact v h
+
+/-- `getitem_int_full` for the translated `__getitem__` / `_get_index` / `parent_start` / `parent_stop` / `__len__` -/
+theorem gen_data_getitem_int_full (v : View) (h : Inv v) (i : Int) :
+    (∀ x, PySlice.index (elems v) i = some x →
+      ∃ w, GenData.getitemInt v i = .ok w ∧ Inv w ∧ elems w = [x] ∧ GenData.len w = 1 ∧
+        w.offset = v.offset ∧ w.seqLen = v.seqLen ∧ w.step = (if v.step < 0 then -1 else 1) ∧
+        GenData.parentStart w = .ok (v.offset + x) ∧ GenData.parentStop w = .ok (v.offset + x + 1) ∧
+        0 ≤ x ∧ x < v.seqLen) ∧
+    (PySlice.index (elems v) i = none → GenData.getitemInt v i = .error .indexError) := by
+  rw [gen_data_getitemInt, gen_data_len, gen_data_parentStartStop.1, gen_data_parentStartStop.2]
+  exact getitem_int_full v h i
+
+example : GenData.getitemInt { start := 0, stop := 7, step := 2, offset := 3, seqLen := 10 } (-1)
+    = .ok { start := 6, stop := 7, step := 1, offset := 3, seqLen := 10 } := by decide
 
 /-- one step of a chain, through the translated `__getitem__` -/
 def genStepData (v : View) : Op → Except Err View
